@@ -21,6 +21,45 @@ META = {"level": "other", "rule": "Ok-implies gates, who-may-call inside the sca
         "explanation": "Necessary structural conditions for 'every returned frame is one of the written frames'."}
 
 
+def increment_last_rules(F, rep, P):
+    """frame numbers must be consecutive in the stream: the counter may only advance once the frame is completely
+    written, i.e. no error exit is reachable after try_increment (other than the increment's own failure)"""
+    for path in ("encode::FlacStreamWriter::write", "encode::encode_frame"):
+        for b in F.one(path)[:1]:
+            inc = [(bi, t) for bi, t in b.calls() if re.search(r"FrameNumber::try_increment$", callee_name(t))]
+            if len(inc) != 1:
+                rep.bad(P, "%s advances the frame number exactly once" % path, loc_of(b), "%d try_increment calls" % len(inc))
+                continue
+            start = inc[0][1]["to"]
+            # the increment's own `?` (encode_frame) is an allowed exit: skip the from_residual fed by this call's result
+            own = set()
+            d = inc[0][1]["d"]["l"]
+            for bi, t in b.calls():
+                if re.search(r"Try>::branch$", callee_name(t)) and op_local(t["a"][0]) == d:
+                    for bj, t2 in b.calls():
+                        if re.search(r"from_residual$", callee_name(t2)) and b.dominates(bi, bj):
+                            rp = root_place(b, t2["a"][0])
+                            if rp and rp["l"] == t["d"]["l"]:
+                                own.add(bj)
+            seen, todo, bad = set(), [start], []
+            while todo:
+                x = todo.pop()
+                if x is None or x in seen or b.blocks[x]["cleanup"]:
+                    continue
+                seen.add(x)
+                bl = b.blocks[x]
+                t = bl["t"]
+                if t and t["t"] == "call" and re.search(r"from_residual$", callee_name(t)) and x not in own:
+                    bad.append(x)
+                for st_ in bl["s"]:
+                    rv = st_["rv"]
+                    if st_["d"]["l"] == 0 and not st_["d"]["p"] and rv["r"] == "agg" and rv.get("adt") == "std::result::Result" and rv.get("var") == "Err":
+                        bad.append(x)
+                todo += b.succs(x)
+            rep.check(P, "%s: nothing can fail after the frame number was advanced" % path, not bad, loc_of(b, inc[0][1]), "",
+                      "the frame counter is advanced before the frame is completely validated and written: a rejected or failed write burns a number and the next frame is not consecutive")
+
+
 def header_order(F, rep, P):
     for b in anchor(F, rep, P, "stream::FrameHeader::parse", multi=True):
         terms = [terminal(t) for _, t in b.calls() if terminal(t)]
@@ -74,6 +113,7 @@ def run(ctx, rep):
                     good = True
         rep.check("C16.subset", "NonSubsetSampleRate is raised on the SampleRate::Streaminfo arm", good, loc_of(wb))
         # ---- C16.count
+        increment_last_rules(F, rep, "C16.count")
         inc = call_blocks(wb, r"FrameNumber::try_increment$")
         oks = [bi for bi, st in agg_sites(wb, "std::result::Result", "Ok") if st["d"]["l"] == 0 and not st["d"]["p"]]
         rep.check("C16.count", "frame counter advanced exactly once before every success return", len(inc) == 1 and oks and all(wb.dominates(inc[0][0], o) for o in oks), loc_of(wb))
